@@ -490,11 +490,13 @@ def confirm(binary, v, idx):
         if ai:
             body += '# <block name="bad2" %s>\nab\n# </block>\n' % ai_attr
         files['f0.py'] = body.encode('latin1')
-        r = run_scan(binary, files, ['**/*.py'], env_extra=env)
+        from . import c19
+        with c19.FakeEndpoint([], default=('text', 'OK')) as ep:       # a healthy endpoint: every reply is OK
+            env['BLOCKWATCH_AI_API_URL'] = 'http://127.0.0.1:%d/v1' % ep.port
+            r = run_scan(binary, files, ['**/*.py'], env_extra=env)
+        env['BLOCKWATCH_AI_API_URL'] = 'http://127.0.0.1:<port of an endpoint that answers OK>/v1'
         failed = r['code'] != 0 and r['diags'] is None
         v['observed'] = dict(code=r['code'], stderr=r['stderr'][-200:])
-        if kind == 'ai-condition' and not want_fail:
-            return v        # a healthy condition needs a live endpoint to be shown healthy: not replayed here
         if failed != want_fail:
             v['confirmed'] = True
             v['replay'] = save_replay(PROP, 'async-%s-%d' % (kind, idx), files, "'**/*.py'", 'env %s; expected a failed run; %s' % (env, v['summary']), v)
